@@ -12,6 +12,13 @@ CHECKS = {
         'no bound); cmp_* callees are used through their contracts only; a lemma per type pair proves trichotomy and the derived comparisons from the six contracts.',
    note=PROOF_NOTE + 'constexpr usability is a compile-time fact shown by constexpr variable definitions in the instantiation unit (not an obligation).',
    technique='CBMC code contracts (DFCC) on mechanically lowered instantiations; full-domain SAT', design='4 C15'),
+ 'C16': dict(
+   text='Every constructor, observer, element accessor and sub-view function of tcb::span<int> and tcb::span<int,4> (incl. the static first<2>/last<2>/subspan<1,2>/subspan<1>) is lowered in '
+        'two configurations (no checking, throwing contract checks) and proved against a contract over the view (ptr,size): results are pointer-identical to ptr+offset inside a fresh parent object '
+        'of exactly size elements, sizes are exact, at() throws exactly for idx>=size(), and in checked mode an exception is raised exactly when the request is out of range, '
+        'with offset/count/index ranging over all of size_t (loop-free, complete).',
+   note=PROOF_NOTE + 'Parent size is bounded by 65536 elements (verifier object size); element type int; reverse_iterator modelled as a struct holding the base pointer; exception message text dropped.',
+   technique='CBMC code contracts (DFCC) on mechanically lowered instantiations; full-domain SAT', design='4 C16'),
 }
 NA = {
  'C05': 'variant lifetimes under exceptions, placement-new into a recursive union and visitation tables built from lambdas: no C++ exception/lifetime semantics in CBMC and no faithful mechanical lowering; a hand-written model would be a different technique (DESIGN.md 6)',
